@@ -1,5 +1,5 @@
 //verif:package github.com/kstenerud/go-concise-encoding/internal/verifh/c08
-//verif:config cap=300 paths=600000
+//verif:config cap=300 paths=600000 maxsec=1800
 //verif:bounds CBE documents: signature, version, each of the 27 length-carrying headers, then 3..4 symbolic bytes (quick: 3 without the validator; thorough: 4 in both modes) of length fields and payload; a dedicated entry gives the media-type length 5 symbolic bytes; MaxArraySizeBytes symbolic in [1, 4096]; rules on and off
 //verif:assume memory = sum of the sizes requested through make/append/new on the path (engine ghost counter, validated natively by runtime.MemStats.TotalAlloc); decoding time and the CTE decoder (whole-input ANTLR parse) are outside reach
 package c08
